@@ -251,6 +251,7 @@ package codegen
 //@ family mutationroot [C06]
 //@   callsite Concurrently: requires false
 //@   ensures calls(Concurrently) == 0
+//@   ensures calls(spawn) == 0
 
 // object.gotpl. C13: a deferred field goes to the FieldSet of its label and is NOT also registered in the main
 // set; deferred groups are only started for an object that is itself valid.
@@ -268,6 +269,8 @@ package codegen
 // backing array with the fields the object itself was collected into, whose initial payload is still to be written:
 // it is built from a fresh one-element literal, never from a window onto `fields`
 //@   callsite NewFieldSet: requires argtext0 == "fields" || argtext0 == "[]graphql.CollectedField{field}"
+// C01 response-key order / C06 document order: the value of the i-th collected field is stored at position i
+//@   at `assign out.Values[i]` requires idx == idx1
 
 // executableSchema.Schema(): a read-only getter (needed so that evaluating `ec.Schema()` between the gate test and
 // the constructor call cannot change DisableIntrospection).
